@@ -138,6 +138,13 @@ def run_history(ops, fx, workdir, fresh="all"):
                 elif r["k"] == "E" and "rows" in fr:
                     prop.append({"step": idx, "kind": "stale_error", "what": "get_array raises %s (%s), a brand-new "
                                  "context computes rows" % (r["err"], r.get("msg"))})
+            if k == "is_stored" and fz and r["k"] == "B":
+                exp = fuzzy_expected(rr, c, op[2], op[3], fuzzy[c][0], fuzzy[c][1])
+                stats["fuzzy_acceptance_checks"] = stats.get("fuzzy_acceptance_checks", 0) + 1
+                if exp is not None and exp[0] != r["v"]:
+                    prop.append({"step": idx, "kind": "fuzzy_reject_tuple" if (exp[0] and exp[1]) else "fuzzy_acceptance",
+                                 "what": "is_stored=%s under fuzzy matching, but a stored lineage %s the requested one outside "
+                                 "the fuzzy parts" % (r["v"], "agrees with" if exp[0] else "does not agree with")})
             if k in ("get", "make") and fz:
                 after = set(os.listdir(rr.store)) if os.path.isdir(rr.store) else set()
                 if after != before:
@@ -160,6 +167,40 @@ def run_history(ops, fx, workdir, fresh="all"):
     finally:
         rr.close()
     return {"dis": dis, "prop": prop, "stats": stats}
+
+
+def fuzzy_expected(rr, c, run, dt, ffor, fopts):
+    """(should the data be accepted, does a tuple value take part) from the metadata on disk, by the
+    specification: some stored lineage of (run, dt) agrees with the requested one outside the fuzzy parts"""
+    st = rr.ctxs[c]
+    try:
+        key = st.key_for(str(run), L.name(dt))
+        ff = [st._plugin_class_registry[L.name(k)].provides[-1] for k in ffor]
+    except Exception:  # noqa
+        return None
+    fo = [L.name(o) for o in fopts]
+
+    def filt(lin):
+        return {d: (v[0], v[1], {o: L.real_text(x) for o, x in v[2].items() if o not in fo}) for d, v in lin.items() if d not in ff}
+    want = filt(key.lineage)
+    tup = any(isinstance(x, tuple) for d, v in key.lineage.items() if d not in ff for o, x in v[2].items() if o not in fo)
+    if not os.path.isdir(rr.store):
+        return (False, tup)
+    for d in sorted(os.listdir(rr.store)):
+        parts = d.split("-")
+        if len(parts) != 3 or parts[0] != str(run) or parts[1] != L.name(dt):
+            continue
+        if parts[2] == key.lineage_hash:
+            return (True, False)
+        mp = os.path.join(rr.store, d, "%s-%s-metadata.json" % (parts[1], parts[2]))
+        if not os.path.exists(mp):
+            continue
+        md = json.load(open(mp))
+        if "writing_ended" not in md or "exception" in md:
+            continue
+        if filt(md["lineage"]) == want:
+            return (True, tup)
+    return (False, tup)
 
 
 def detect_mode(workdir):
@@ -299,6 +340,9 @@ def unit_histories(ctx, mode):
                                "seed": res["seed"]}, no_failing_input=True)
         for pf in res["prop"]:
             cause = None
+            if pf["kind"] == "fuzzy_reject_tuple" and getattr(ctx, "fuzzy_tuple_known", False):
+                dist["fuzzy_rejects_explained_by_tuple_finding"] = dist.get("fuzzy_rejects_explained_by_tuple_finding", 0) + 1
+                continue
             if pf["kind"].startswith("stale"):
                 if has_d4_op(res["ops"], pf["step"]):
                     cause = "D4-class-content"
@@ -360,11 +404,11 @@ def run(ctx):
             "plugin graphs of 2..6 data types with shared, child and untracked options, multi-output classes, several "
             "contexts on one directory; non-trivial = at least two stored directories and at least one configuration "
             "change or re-registration; distinct by canonical JSON of the operation list.")
-        unit_witnesses(ctx, mode)
-        unit_histories(ctx, mode)
         from harness.props import c02_units as U
-        U.unit_canon(ctx)
+        unit_witnesses(ctx, mode)
         U.unit_fuzzy_witness(ctx)
+        unit_histories(ctx, mode)
+        U.unit_canon(ctx)
         U.unit_fuzzy(ctx)
         U.unit_determinism(ctx)
         U.unit_sensitivity(ctx)
